@@ -355,6 +355,29 @@ func runC04(p *core.Prog, r *core.Report) {
 				}
 			}
 			ok := exact != nil && all != nil && len(exact.miss) > 0 && sx.MustPass(methodFn, nil, all.in, sx.Cut{Edges: exact.miss})
+			// and conversely: no path gives up without having consulted the '*' method
+			if ok {
+				for _, ret := range sx.Returns(methodFn) {
+					rv := returnValue(ret, 0)
+					fromExact := false
+					for _, lf := range leaves(rv) {
+						if lf == exact.value {
+							fromExact = true
+						}
+					}
+					if fromExact && len(leaves(rv)) == 1 {
+						continue
+					}
+					if !sx.MustPass(methodFn, nil, ret, sx.Cut{Instrs: map[ssa.Instruction]bool{all.in: true}}) {
+						ok = false
+					}
+				}
+				if !ok {
+					r.Fail("C04-R3", "method: every miss of the exact method falls back to '*'", p.FuncPos(methodFn), "a path of the method lookup returns without consulting the '*' method (e.g. an early return for unknown request methods): a MethodAll route is not found for that request")
+				} else {
+					r.OK("C04-R3", "method: every miss of the exact method falls back to '*'", p.FuncPos(methodFn), "every return is either the exact hit or after the MethodAll lookup")
+				}
+			}
 			r.Check(ok, "C04-R3", "method: '*' handler only when the exact method missed", p.FuncPos(methodFn), "the MethodAll lookup is behind the exact lookup's miss edge", "the '*' method lookup is reachable without the exact method having missed (or one of the two lookups is gone): the exact-method handler loses its precedence / the '*' fallback is lost")
 		}
 		// a route is returned only after a successful method lookup (returns that delegate to a tail helper are covered there)
